@@ -6,12 +6,17 @@
   sort and index reads have one-step theorems; index WRITES (`a[i] = v`) are in sections 6
   to 9 at the end (`index_write_refines`, `index_assign_refines`, `ops_refine_list_w`,
   `ops_refine_lists_w`: sequences of push / pop / popfirst / length / index write); calls nested
-  in each other's arguments have no theorem in this file.  Heaps are assumed well-formed
-  (`Heap.WF`: cell ids stored in containers are allocated), which the natives preserve, and the
-  receiver must be an allocated array (`a < h.arrs.size`).
+  in each other's arguments have no theorem in this file.  Sections 1-9 assume well-formed heaps
+  (`Heap.WF`: cell ids stored in containers are allocated) and, for index writes, unshared element
+  cells holding plain values; section 10 proves these are invariants of the whole evaluator and
+  of every run (`evaluator_keeps_inv`, `run_end_unshared_plain`, `reachable_inv`) and restates the
+  index-write theorems for every reachable state (`…_reachable`).  The receiver must be an
+  allocated array (`a < h.arrs.size`).
 -/
 import Jqawk.Lemmas.Arr
 import Jqawk.Lemmas.IndexWrite
+import Jqawk.Lemmas.HeapInvDriver
+import Jqawk.Lemmas.HeapInvNest
 
 namespace Jqawk.C15
 open Jqawk Spec
@@ -1009,5 +1014,699 @@ example : (match writeAt 0 0 1 2
     ∧ setIdx [.bool true, .bool true] F64.one.toGoInt (.bool false) = .ok [.bool true, .bool false] := by
   constructor <;> with_unfolding_all rfl
 
+
+
+/-! ### 10. `Unshared` and `ElemsPlain` are invariants of evaluation (added after REVIEW.md, C15)
+
+  Sections 6 to 9 take `Heap.WF`, `Unshared` and `ElemsPlain` as hypotheses on the start state.  Here
+  they are shown to hold in every state evaluation goes on from.  The invariant that is actually
+  inductive is `HeapInv.Inv h` = `h.WF ∧ Unshared h ∧ ElemsPlain h ∧ MembersPlain h` (object members
+  are plain too: `for (v, k in obj)` copies a member's raw value into the index variable, whose cell
+  may be an array element through a match binding), together with the two-state relation
+  `HeapInv.Trans h h'` (the heap only grows; a cell holding a plain value keeps holding plain values;
+  no cell existing in `h` becomes an array element unless it was one).
+
+  What is claimed (`HeapInv.Post`): when an evaluation started in a state satisfying `Inv` ends
+  NORMALLY or with a CONTROL SIGNAL (break / continue / return / next / exit — the cases after which
+  evaluation goes on), the end state satisfies `Inv` and is `Trans`-related to the start.  For the
+  end state of an evaluation that stops with a runtime error (or panic / unmodelled construct) only
+  the weak invariant `HeapInv.Weak h` = `h.WF ∧ Unshared h` is claimed
+  (`evalExpr_error_keeps_unshared`, `evalStmt_error_keeps_unshared`, `run_end_unshared` at the end of
+  this section), and no more can be: FINDING `elemsPlain_fails_after_runtime_error` below —
+  `a[5] = printf` stores the stand-in value into the padded array and only then fails to copy the
+  function (the Go code does the same: `SetMember` runs `item.Value = cell.Value` before `copyValue`
+  fails), so `ElemsPlain` is false in that final state; no evaluation goes on from it.  An
+  evaluation that runs out of fuel has no end state; a run that does reports no state or an earlier
+  one satisfying `Inv`. -/
+
+open HeapInv
+
+/-- the three hypotheses of the index-write theorems are part of the invariant -/
+theorem inv_gives {h : Heap} (i : HeapInv.Inv h) : h.WF ∧ Unshared h ∧ ElemsPlain h := ⟨i.wf, i.un, i.ep⟩
+
+/-- **the invariant is kept by every one of the 15 mutually recursive evaluator functions, at every
+    fuel** (`AllGood`: `evalExpr`, `evalUnary`, `evalBinary`, `evalMatchCases`, `evalCaseMatch`,
+    `evalArrayCaseMatch`, `matchElems`, `evalStmt`, `evalBlock`, `whileLoop`, `forLoop` from any state
+    satisfying `Inv`; `evalExprList … true` moreover returns pairwise different fresh plain cells that
+    are nobody's elements; `evalObjItems` plain allocated member cells if it was given such;
+    `callFunction` needs argument cells holding plain values (what `evalExprList … true` yields);
+    `forInLoop` needs an item list whose cells hold plain values (what the `for … in` statement builds
+    from an array, an object or a string)), including the natives they call (`Good.callNative`),
+    `evalAssignment` / `createSpeculative` / `setMember` (`Good.evalAssignment`), `memberStep`,
+    `copyValue` and array / object literals -/
+theorem evaluator_keeps_inv (prog : Program) (n : Nat) : AllGood prog n := allGood prog n
+
+/-- an expression evaluated from a state satisfying the invariant: if it yields a value, the end state
+    satisfies the invariant (in particular `Heap.WF`, `Unshared`, `ElemsPlain`) -/
+theorem evalExpr_keeps_inv (prog : Program) (n : Nat) (e : Expr) (s s' : St) (c : CellId)
+    (i : HeapInv.Inv s.heap) (h : evalExpr prog n e s = .ok c s') : HeapInv.Inv s'.heap ∧ HeapInv.Trans s.heap s'.heap := by
+  have := (allGood prog n).expr e s i trivial
+  rw [h] at this; exact ⟨this.1, this.2.1⟩
+
+/-- … and if it ends with a control signal (a `return`/`break`/… inside a match body) -/
+theorem evalExpr_signal_keeps_inv (prog : Program) (n : Nat) (e : Expr) (s s' : St) (g : Sig)
+    (i : HeapInv.Inv s.heap) (h : evalExpr prog n e s = .err (.sig g) s') :
+    HeapInv.Inv s'.heap ∧ HeapInv.Trans s.heap s'.heap := by
+  have := (allGood prog n).expr e s i trivial
+  rw [h] at this; exact this
+
+/-- a statement run from a state satisfying the invariant: if it completes, the end state satisfies
+    the invariant -/
+theorem evalStmt_keeps_inv (prog : Program) (n : Nat) (st : Stmt) (s s' : St)
+    (i : HeapInv.Inv s.heap) (h : evalStmt prog n st s = .ok () s') : HeapInv.Inv s'.heap ∧ HeapInv.Trans s.heap s'.heap := by
+  have := (allGood prog n).stmt st s i trivial
+  rw [h] at this; exact ⟨this.1, this.2.1⟩
+
+/-- … and if it ends with a control signal (break / continue / return / next / exit) -/
+theorem evalStmt_signal_keeps_inv (prog : Program) (n : Nat) (st : Stmt) (s s' : St) (g : Sig)
+    (i : HeapInv.Inv s.heap) (h : evalStmt prog n st s = .err (.sig g) s') :
+    HeapInv.Inv s'.heap ∧ HeapInv.Trans s.heap s'.heap := by
+  have := (allGood prog n).stmt st s i trivial
+  rw [h] at this; exact this
+
+/-- every native, called with plain argument values (what `callFunction` passes: the values of the
+    copied argument cells), keeps the invariant: `push` stores a fresh cell, `pop`/`popfirst` shrink,
+    `sort`/`split` build an array of fresh cells holding copies, `pluck` an object of fresh cells -/
+theorem native_keeps_inv (f : Native) (args : List Val) (this : Option Val) (s s' : St) (r : NativeRes)
+    (hargs : ∀ v ∈ args, Plain v) (i : HeapInv.Inv s.heap) (h : callNative f args this s = .ok r s') :
+    HeapInv.Inv s'.heap ∧ HeapInv.Trans s.heap s'.heap := by
+  have := Good.callNative f args this hargs s i trivial
+  rw [h] at this; exact ⟨this.1, this.2.1⟩
+
+/-- the store `evalAssignment` (with `createSpeculative` and `setMember`: padding, materialising
+    parents, object members) keeps the invariant whenever it succeeds -/
+theorem evalAssignment_keeps_inv (pos : Nat) (l r : CellId) (s s' : St) (c : CellId)
+    (i : HeapInv.Inv s.heap) (h : evalAssignment pos l r s = .ok c s') : HeapInv.Inv s'.heap ∧ HeapInv.Trans s.heap s'.heap := by
+  have := Good.evalAssignment pos l r s i trivial
+  rw [h] at this; exact ⟨this.1, this.2.1⟩
+
+/-- the heap the driver builds from decoded JSON input satisfies the invariant, and the value it
+    returns is plain -/
+theorem newValueJson_keeps_inv (j : JVal) (s s' : St) (v : Val) (i : HeapInv.Inv s.heap)
+    (h : newValueJson j s = .ok v s') : HeapInv.Inv s'.heap ∧ HeapInv.Trans s.heap s'.heap ∧ Plain v := by
+  have := ht_newValueJson j s i trivial
+  rw [h] at this; exact this
+
+/-- the start state of a run (empty heap plus the builtins' and functions' cells) satisfies the
+    invariant -/
+theorem initial_state_inv (prog : Program) : HeapInv.Inv (newEvaluator prog Heap.empty [] 0).heap :=
+  newEvaluator_empty_inv prog
+
+/-- **a whole run** (`EvalProgram`: BEGIN rules, every input file — decoding, selectors with their
+    nested evaluators, BEGINFILE / pattern / ENDFILE rules per root —, END rules): the state a
+    successful run ends in has a well-formed heap in which no cell is an element twice and every
+    array element is plain.  (`HeapInv.evalProgram_invRun` says the same for runs that end with a
+    surfaced signal, a JSON error or a syntax error; runs stopped by a runtime error are excluded,
+    see the finding below.) -/
+theorem run_end_unshared_plain (tbl : RuleTable) (src : Bytes) (sels : List Bytes) (files : List InputFile)
+    (st : St) (hst : (evalProgram tbl src sels files).st = some st)
+    (ho : (evalProgram tbl src sels files).outcome = .ok) :
+    st.heap.WF ∧ Unshared st.heap ∧ ElemsPlain st.heap :=
+  inv_gives (evalProgram_inv tbl src sels files st hst ho)
+
+/-- the states a run goes through, as a closure: the start state of an evaluator (on the empty heap,
+    or nested on a reached heap, as selectors do), closed under what the driver and the evaluator do
+    between two evaluations — converting decoded JSON, allocating a cell, changing frames / roots /
+    output / counters — and under every evaluation of an expression or a statement (of any program,
+    at any fuel) that ends normally or with a control signal, every successful store
+    (`evalAssignment`), member step and native call with plain arguments -/
+inductive Reachable : St → Prop
+  | init (prog : Program) : Reachable (newEvaluator prog Heap.empty [] 0)
+  | nested (prog : Program) (s : St) (out : List Bytes) (faults : Nat) :
+      Reachable s → Reachable (newEvaluator prog s.heap out faults)
+  | sameHeap (s s' : St) : Reachable s → s'.heap = s.heap → Reachable s'
+  | alloc (s : St) (v : Val) : Reachable s → Reachable { s with heap := (s.heap.alloc v).2 }
+  | json (j : JVal) (s s' : St) (v : Val) : Reachable s → newValueJson j s = .ok v s' → Reachable s'
+  | expr (prog : Program) (n : Nat) (e : Expr) (s s' : St) (c : CellId) :
+      Reachable s → evalExpr prog n e s = .ok c s' → Reachable s'
+  | exprSig (prog : Program) (n : Nat) (e : Expr) (s s' : St) (g : Sig) :
+      Reachable s → evalExpr prog n e s = .err (.sig g) s' → Reachable s'
+  | stmt (prog : Program) (n : Nat) (st : Stmt) (s s' : St) :
+      Reachable s → evalStmt prog n st s = .ok () s' → Reachable s'
+  | stmtSig (prog : Program) (n : Nat) (st : Stmt) (s s' : St) (g : Sig) :
+      Reachable s → evalStmt prog n st s = .err (.sig g) s' → Reachable s'
+  | assign (pos : Nat) (l r : CellId) (s s' : St) (c : CellId) :
+      Reachable s → evalAssignment pos l r s = .ok c s' → Reachable s'
+  | member (pos : Nat) (l r : CellId) (s s' : St) (c : CellId) :
+      Reachable s → memberStep pos l r s = .ok c s' → Reachable s'
+  | native (f : Native) (args : List Val) (this : Option Val) (s s' : St) (r : NativeRes) :
+      Reachable s → (∀ v ∈ args, Plain v) → callNative f args this s = .ok r s' → Reachable s'
+
+/-- **every reachable state satisfies the invariant** -/
+theorem reachable_inv {s : St} (h : Reachable s) : HeapInv.Inv s.heap := by
+  induction h with
+  | init prog => exact newEvaluator_empty_inv prog
+  | nested prog s out faults _ ih => exact newEvaluator_inv prog s.heap out faults ih
+  | sameHeap s s' _ e ih => rw [e]; exact ih
+  | alloc s v _ ih => exact inv_alloc ih v
+  | json j s s' v _ e ih => exact (newValueJson_keeps_inv j s s' v ih e).1
+  | expr prog n e s s' c _ he ih => exact (evalExpr_keeps_inv prog n e s s' c ih he).1
+  | exprSig prog n e s s' g _ he ih => exact (evalExpr_signal_keeps_inv prog n e s s' g ih he).1
+  | stmt prog n st s s' _ he ih => exact (evalStmt_keeps_inv prog n st s s' ih he).1
+  | stmtSig prog n st s s' g _ he ih => exact (evalStmt_signal_keeps_inv prog n st s s' g ih he).1
+  | assign pos l r s s' c _ he ih => exact (evalAssignment_keeps_inv pos l r s s' c ih he).1
+  | member pos l r s s' c _ he ih =>
+    have := Good.memberStep pos l r s ih trivial
+    rw [he] at this; exact this.1
+  | native f args this s s' r _ ha he ih => exact (native_keeps_inv f args this s s' r ha ih he).1
+
+/-- … so in every reachable state no cell is an element of two arrays or twice of one, and no array
+    element is a stand-in or a method value: the hypotheses of sections 6 to 9 -/
+theorem reachable_unshared_plain {s : St} (h : Reachable s) :
+    s.heap.WF ∧ Unshared s.heap ∧ ElemsPlain s.heap := inv_gives (reachable_inv h)
+
+/-- `index_write_refines` in a reachable state, without the hypotheses `Heap.WF`, `Unshared`,
+    `ElemsPlain`: the primitive index write refines `setIdx` on the list the array denotes -/
+theorem index_write_refines_reachable (pos : Nat) (ac ic rc : CellId) (s : St) (a : ArrId) (x : F64)
+    (w : Val) (hs : Reachable s) (ha : a < s.heap.arrs.size)
+    (hac : s.heap.get ac = .arr a) (hic : s.heap.get ic = .num x) (hrc : rc < s.heap.cells.size)
+    (hw : copyVal (s.heap.get rc) = .ok w) :
+    match setIdx (absArr s.heap a) x.toGoInt w with
+    | .ok l' => ∃ c s', writeAt pos ac ic rc s = .ok c s' ∧ s'.heap.get c = w ∧ ArrStep a s s' l' ∧
+        Unshared s'.heap ∧ ElemsPlain s'.heap
+    | .error m => ∃ s', writeAt pos ac ic rc s = .err (.runtime pos m) s' ∧
+        ∀ b, absArr s'.heap b = absArr s.heap b :=
+  have i := reachable_inv hs
+  index_write_refines pos ac ic rc s a x w i.wf i.un i.ep ha hac hic hrc hw
+
+/-- `index_assign_refines` for an assignment expression `ea[ei] = er` evaluated in a reachable state
+    `s`, without the three hypotheses (the state `s2` after `ea` and `ei` is reachable too) -/
+theorem index_assign_refines_reachable (prog : Program) (n : Nat) (ea ei er : Expr) (lsq eq : Token)
+    (s s1 s2 : St) (ac ic : CellId) (a : ArrId) (x : F64) (w : Val) (hs : Reachable s)
+    (hl : lsq.tag = .lsquare) (he : eq.tag = .equal)
+    (h1 : evalExpr prog n ea s = .ok ac s1) (h2 : evalExpr prog n ei s1 = .ok ic s2)
+    (ha : a < s2.heap.arrs.size)
+    (hac : s2.heap.get ac = .arr a) (hic : s2.heap.get ic = .num x)
+    (hr : ∀ m sm, memberStep ea.token.pos ac ic s2 = .ok m sm →
+      RhsYields (evalExpr prog (n + 2) er) w sm) :
+    match setIdx (absArr s2.heap a) x.toGoInt w with
+    | .ok l' => ∃ c s', evalExpr prog (n + 4) (.binary (.binary ea ei lsq) er eq) s = .ok c s' ∧
+        s'.heap.get c = w ∧ ArrStep a s2 s' l' ∧ Unshared s'.heap ∧ ElemsPlain s'.heap
+    | .error m => ∃ s', evalExpr prog (n + 4) (.binary (.binary ea ei lsq) er eq) s
+          = .err (.runtime ea.token.pos m) s' ∧
+        ∀ b, absArr s'.heap b = absArr s2.heap b :=
+  have i := reachable_inv (.expr prog n ei s1 s2 ic (.expr prog n ea s s1 ac hs h1) h2)
+  index_assign_refines prog n ea ei er lsq eq s s1 s2 ac ic a x w hl he h1 h2 i.wf i.un i.ep ha hac hic hr
+
+/-- `ops_refine_list_w` from a reachable state: every sequence of push / pop / popfirst / length /
+    index write through one array id behaves like the ideal list, with no hypothesis on the heap
+    but the receiver being allocated -/
+theorem ops_refine_list_w_reachable (a : ArrId) (ops : List OpW) (s : St) (hs : Reachable s)
+    (ha : a < s.heap.arrs.size) (hv : ∀ op ∈ ops, op.valid) :
+    match runW (absArr s.heap a) ops with
+    | .ok (rs, l') => ∃ s', runOpsW a ops s = .ok (rs.map (resOf a)) s' ∧ ArrStep a s s' l'
+    | .error m => ∃ s', runOpsW a ops s = .err (.runtime 0 m) s' :=
+  have i := reachable_inv hs
+  ops_refine_list_w a ops s i.wf i.un i.ep ha hv
+
+/-- `ops_refine_lists_w` (several arrays, interleaved) from a reachable state -/
+theorem ops_refine_lists_w_reachable (ops : List (ArrId × OpW)) (s : St) (hs : Reachable s)
+    (hids : ∀ aop ∈ ops, aop.1 < s.heap.arrs.size) (hv : ∀ aop ∈ ops, aop.2.valid) :
+    match runAllW (absArr s.heap) ops with
+    | .ok (rs, m') => ∃ s', runOpsOnW ops s = .ok rs s' ∧ (∀ b, absArr s'.heap b = m' b) ∧
+        s'.heap.WF ∧ s'.heap.arrs.size = s.heap.arrs.size ∧ s' = { s with heap := s'.heap }
+    | .error e => ∃ s', runOpsOnW ops s = .err (.runtime 0 e) s' :=
+  have i := reachable_inv hs
+  ops_refine_lists_w ops s i.wf i.un i.ep hids hv
+
+/-- `index_assign_fresh_refines` (the right-hand side evaluates to a fresh cell holding `v`: every
+    literal) for an assignment evaluated in a reachable state, without the three hypotheses -/
+theorem index_assign_fresh_refines_reachable (prog : Program) (n : Nat) (ea ei er : Expr) (lsq eq : Token)
+    (s s1 s2 : St) (ac ic : CellId) (a : ArrId) (x : F64) (v w : Val) (hs : Reachable s)
+    (hl : lsq.tag = .lsquare) (he : eq.tag = .equal)
+    (h1 : evalExpr prog n ea s = .ok ac s1) (h2 : evalExpr prog n ei s1 = .ok ic s2)
+    (ha : a < s2.heap.arrs.size)
+    (hac : s2.heap.get ac = .arr a) (hic : s2.heap.get ic = .num x)
+    (hv : ∀ s', evalExpr prog (n + 2) er s' = newCell v s') (hw : copyVal v = .ok w) :
+    match setIdx (absArr s2.heap a) x.toGoInt w with
+    | .ok l' => ∃ c s', evalExpr prog (n + 4) (.binary (.binary ea ei lsq) er eq) s = .ok c s' ∧
+        s'.heap.get c = w ∧ ArrStep a s2 s' l' ∧ Unshared s'.heap ∧ ElemsPlain s'.heap
+    | .error m => ∃ s', evalExpr prog (n + 4) (.binary (.binary ea ei lsq) er eq) s
+          = .err (.runtime ea.token.pos m) s' ∧
+        ∀ b, absArr s'.heap b = absArr s2.heap b :=
+  have i := reachable_inv (.expr prog n ei s1 s2 ic (.expr prog n ea s s1 ac hs h1) h2)
+  index_assign_fresh_refines prog n ea ei er lsq eq s s1 s2 ac ic a x v w hl he h1 h2 i.wf i.un i.ep ha
+    hac hic hv hw
+
+/-! #### non-vacuity of section 10, and the finding -/
+
+/-- the example state of section 7 satisfies the invariant -/
+theorem exW_inv : HeapInv.Inv exW.heap :=
+  ⟨exW_wf, exW_unshared, exW_plain, fun o k c hc => by simp [exW, Heap.obj] at hc⟩
+
+example : exW.heap.WF ∧ Unshared exW.heap ∧ ElemsPlain exW.heap := inv_gives exW_inv
+
+/-- did the computation end normally? -/
+def isOkR {α : Type} : Res α → Bool
+  | .ok _ _ => true
+  | _ => false
+
+/-- did it end with a control signal? -/
+def isSigR {α : Type} : Res α → Bool
+  | .err (.sig _) _ => true
+  | _ => false
+
+/-- the state a computation ended in -/
+def stOf {α : Type} : Res α → St
+  | .ok _ s => s
+  | .err _ s => s
+  | .oof => default
+
+theorem exists_of_isOkR {α : Type} {r : Res α} (h : isOkR r = true) : ∃ a s', r = .ok a s' := by
+  cases r with
+  | ok a s' => exact ⟨a, s', rfl⟩
+  | err e s' => cases h
+  | oof => cases h
+
+theorem exists_of_isSigR {α : Type} {r : Res α} (h : isSigR r = true) : ∃ g s', r = .err (.sig g) s' := by
+  cases r with
+  | ok a s' => cases h
+  | err e s' =>
+    cases e with
+    | sig g => exact ⟨g, s', rfl⟩
+    | runtime p m => cases h
+    | panic m => cases h
+    | unmodelled w => cases h
+  | oof => cases h
+
+/-- `a[i] = v` on `exW`: `evalExpr_keeps_inv` applies -/
+example : ∃ c s', evalExpr Program.empty 5 exWAssign exW = .ok c s' ∧ HeapInv.Inv s'.heap := by
+  obtain ⟨c, s', e⟩ := exists_of_isOkR (r := evalExpr Program.empty 5 exWAssign exW) (by decide +kernel)
+  exact ⟨c, s', e, (evalExpr_keeps_inv _ _ _ _ _ _ exW_inv e).1⟩
+
+/-- the statement `a[i] = v` on `exW`: `evalStmt_keeps_inv` applies -/
+example : ∃ s', evalStmt Program.empty 6 (.expr exWAssign) exW = .ok () s' ∧ HeapInv.Inv s'.heap := by
+  obtain ⟨u, s', e⟩ := exists_of_isOkR (r := evalStmt Program.empty 6 (.expr exWAssign) exW)
+    (by decide +kernel)
+  exact ⟨s', e, (evalStmt_keeps_inv _ _ _ _ _ exW_inv e).1⟩
+
+/-- `{ a[i] = v; break }` ends with the signal `break`: `evalStmt_signal_keeps_inv` applies -/
+example : ∃ g s', evalStmt Program.empty 8
+      (.block ⟨.lcurly, 0, b!"{"⟩ [.expr exWAssign, .brk ⟨.break_, 9, b!"break"⟩]) exW = .err (.sig g) s' ∧
+    HeapInv.Inv s'.heap := by
+  obtain ⟨g, s', e⟩ := exists_of_isSigR (r := evalStmt Program.empty 8
+      (.block ⟨.lcurly, 0, b!"{"⟩ [.expr exWAssign, .brk ⟨.break_, 9, b!"break"⟩]) exW) (by decide +kernel)
+  exact ⟨g, s', e, (evalStmt_signal_keeps_inv _ _ _ _ _ _ exW_inv e).1⟩
+
+/-- `match a { x => { a[i] = v; break } }` (an expression) ends with the signal `break`:
+    `evalExpr_signal_keeps_inv` applies -/
+example : ∃ g s', evalExpr Program.empty 10
+      (.match_ ⟨.match_, 0, b!"match"⟩ (.ident ⟨.ident, 6, b!"a"⟩)
+        [.mk [.ident ⟨.ident, 10, b!"x"⟩]
+          (.block ⟨.lcurly, 0, b!"{"⟩ [.expr exWAssign, .brk ⟨.break_, 9, b!"break"⟩])]) exW
+        = .err (.sig g) s' ∧ HeapInv.Inv s'.heap := by
+  obtain ⟨g, s', e⟩ := exists_of_isSigR (r := evalExpr Program.empty 10
+      (.match_ ⟨.match_, 0, b!"match"⟩ (.ident ⟨.ident, 6, b!"a"⟩)
+        [.mk [.ident ⟨.ident, 10, b!"x"⟩]
+          (.block ⟨.lcurly, 0, b!"{"⟩ [.expr exWAssign, .brk ⟨.break_, 9, b!"break"⟩])]) exW)
+    (by decide +kernel)
+  exact ⟨g, s', e, (evalExpr_signal_keeps_inv _ _ _ _ _ _ exW_inv e).1⟩
+
+/-- `a.push(true)` on `exW`: `native_keeps_inv` applies -/
+example : ∃ r s', callNative .arrPush [.bool true] (some (.arr 0)) exW = .ok r s' ∧ HeapInv.Inv s'.heap := by
+  obtain ⟨r, s', e⟩ := exists_of_isOkR (r := callNative .arrPush [.bool true] (some (.arr 0)) exW)
+    (by decide +kernel)
+  exact ⟨r, s', e, (native_keeps_inv _ _ _ _ _ _
+    (fun v hv => by simp at hv; subst hv; exact ⟨rfl, fun _ _ _ e => by cases e⟩) exW_inv e).1⟩
+
+/-- storing the value of cell 2 into the element cell 3: `evalAssignment_keeps_inv` applies -/
+example : ∃ c s', evalAssignment 0 3 2 exW = .ok c s' ∧ HeapInv.Inv s'.heap := by
+  obtain ⟨c, s', e⟩ := exists_of_isOkR (r := evalAssignment 0 3 2 exW) (by decide +kernel)
+  exact ⟨c, s', e, (evalAssignment_keeps_inv _ _ _ _ _ _ exW_inv e).1⟩
+
+/-- converting `[null, {"k": true}]` on `exW`: `newValueJson_keeps_inv` applies -/
+example : ∃ v s', newValueJson (.arr [.null, .obj [(b!"k", .bool true)]]) exW = .ok v s' ∧
+    HeapInv.Inv s'.heap ∧ Plain v := by
+  obtain ⟨v, s', e⟩ := exists_of_isOkR (r := newValueJson (.arr [.null, .obj [(b!"k", .bool true)]]) exW)
+    (by decide +kernel)
+  have h := newValueJson_keeps_inv _ _ _ _ exW_inv e
+  exact ⟨v, s', e, h.1, h.2.2⟩
+
+theorem outcome_ok_of {o : Outcome} (h : (match o with | .ok => true | _ => false) = true) : o = .ok := by
+  cases o <;> first | rfl | cases h
+
+/-- a whole run with padding writes, push, pop, popfirst, an array literal holding an element's value and
+    input converted from JSON: `run_end_unshared_plain` applies -/
+example : ∃ st, (evalProgram expectedRuleTable
+      b!"BEGIN { a[2] = 1; a.push(a.pop()); b = [a[0], a] } { $.x[3] = $.y; b.push($); b[5] = b.popfirst() }" []
+      [⟨b!"in", b!"{\"y\": [1, 2]}", .eof⟩]).st = some st ∧
+    st.heap.WF ∧ Unshared st.heap ∧ ElemsPlain st.heap := by
+  have ho := outcome_ok_of (o := (evalProgram expectedRuleTable
+      b!"BEGIN { a[2] = 1; a.push(a.pop()); b = [a[0], a] } { $.x[3] = $.y; b.push($); b[5] = b.popfirst() }" []
+      [⟨b!"in", b!"{\"y\": [1, 2]}", .eof⟩]).outcome) (by decide +kernel)
+  cases hst : (evalProgram expectedRuleTable
+      b!"BEGIN { a[2] = 1; a.push(a.pop()); b = [a[0], a] } { $.x[3] = $.y; b.push($); b[5] = b.popfirst() }" []
+      [⟨b!"in", b!"{\"y\": [1, 2]}", .eof⟩]).st with
+  | none =>
+    have : ((evalProgram expectedRuleTable
+      b!"BEGIN { a[2] = 1; a.push(a.pop()); b = [a[0], a] } { $.x[3] = $.y; b.push($); b[5] = b.popfirst() }" []
+      [⟨b!"in", b!"{\"y\": [1, 2]}", .eof⟩]).st).isSome = true := by decide +kernel
+    rw [hst] at this; cases this
+  | some st => exact ⟨st, rfl, run_end_unshared_plain _ _ _ _ st hst ho⟩
+
+/-- a reachable state: the start state of the empty program, the input `[true, false]` converted,
+    three cells allocated (the array reference, the index 1, the value `true`), and the variables
+    `a`, `i`, `v` naming them -/
+def sR0 : St := newEvaluator Program.empty Heap.empty [] 0
+def sR1 : St := stOf (newValueJson (.arr [.bool true, .bool false]) sR0)
+def sR2 : St := { sR1 with heap := (sR1.heap.alloc (.arr 0)).2 }
+def sR3 : St := { sR2 with heap := (sR2.heap.alloc (.num F64.one)).2 }
+def sR4 : St := { sR3 with heap := (sR3.heap.alloc (.bool true)).2 }
+def sR : St := { sR4 with frames := [⟨b!"<root>", [(b!"a", 5), (b!"i", 6), (b!"v", 7)]⟩] }
+
+theorem sR_reachable : Reachable sR := by
+  have h1 : Reachable sR1 :=
+    .json (.arr [.bool true, .bool false]) sR0 sR1 (.arr 0) (.init _) (by with_unfolding_all rfl)
+  exact .sameHeap sR4 sR (.alloc sR3 _ (.alloc sR2 _ (.alloc sR1 _ h1))) rfl
+
+example : sR.heap.WF ∧ Unshared sR.heap ∧ ElemsPlain sR.heap := reachable_unshared_plain sR_reachable
+
+/-- `index_write_refines_reachable` on `sR`: the write `a[1] = true` gives `[true, true]` -/
+example : ∃ c s', writeAt 0 5 6 7 sR = .ok c s' ∧ absArr s'.heap 0 = [.bool true, .bool true] := by
+  have h := index_write_refines_reachable 0 5 6 7 sR 0 F64.one (.bool true) sR_reachable
+    (by decide +kernel) (by with_unfolding_all rfl) (by with_unfolding_all rfl) (by decide +kernel)
+    (by with_unfolding_all rfl)
+  have hs : setIdx (absArr sR.heap 0) F64.one.toGoInt (.bool true) = .ok [.bool true, .bool true] := by
+    with_unfolding_all rfl
+  rw [hs] at h
+  obtain ⟨c, s', e, g, st, -⟩ := h
+  exact ⟨c, s', e, st.this⟩
+
+example : HeapInv.Inv sR.heap := reachable_inv sR_reachable
+
+/-- `a[3] = null` evaluated in the reachable state `sR` (`a` = `[true, false]`): the hypotheses of
+    `index_assign_fresh_refines_reachable` hold — none about sharing or plainness is left — and it
+    gives `[true, false, null, null]` -/
+example : ∃ c s', evalExpr Program.empty 5
+      (.binary (.binary (.ident ⟨.ident, 0, b!"a"⟩) (.lit ⟨.num, 2, b!"3"⟩) ⟨.lsquare, 1, b!"["⟩)
+        (.lit ⟨.null, 7, b!"null"⟩) ⟨.equal, 5, b!"="⟩) sR = .ok c s' ∧
+    absArr s'.heap 0 = [.bool true, .bool false, .nil none, .nil none] := by
+  have hp : F64.parse b!"3" = some three := by decide +kernel
+  have h3 : three.toGoInt = 3 := by decide +kernel
+  have ext : Ext sR.heap (sR.heap.alloc (.num three)).2 := Ext.alloc _ _
+  have h2 : evalExpr Program.empty 1 (.lit ⟨.num, 2, b!"3"⟩) sR
+      = .ok 8 { sR with heap := (sR.heap.alloc (.num three)).2 } := by
+    unfold evalExpr
+    simp only [hp]
+    rfl
+  have h := index_assign_fresh_refines_reachable Program.empty 1 (.ident ⟨.ident, 0, b!"a"⟩)
+    (.lit ⟨.num, 2, b!"3"⟩) (.lit ⟨.null, 7, b!"null"⟩) ⟨.lsquare, 1, b!"["⟩ ⟨.equal, 5, b!"="⟩ sR sR
+    { sR with heap := (sR.heap.alloc (.num three)).2 } 5 8 0 three (.nil none) (.nil none) sR_reachable
+    rfl rfl (by with_unfolding_all rfl) h2 (by decide +kernel)
+    ((Heap.get_push_old sR.heap _ 5 (by decide +kernel)).trans (by with_unfolding_all rfl))
+    (Heap.get_push_new sR.heap _)
+    (fun _ => by with_unfolding_all rfl) rfl
+  rw [h3, ext.absArr (reachable_inv sR_reachable).wf 0] at h
+  have hs : setIdx (absArr sR.heap 0) 3 (.nil none) = .ok [.bool true, .bool false, .nil none, .nil none] := by
+    with_unfolding_all rfl
+  rw [hs] at h
+  obtain ⟨c, s', e, g, st, -⟩ := h
+  exact ⟨c, s', e, st.this⟩
+
+/-- the same through `index_assign_refines_reachable`: its hypothesis `RhsYields` holds for the
+    literal `null` -/
+example : ∃ c s', evalExpr Program.empty 5
+      (.binary (.binary (.ident ⟨.ident, 0, b!"a"⟩) (.lit ⟨.num, 2, b!"3"⟩) ⟨.lsquare, 1, b!"["⟩)
+        (.lit ⟨.null, 7, b!"null"⟩) ⟨.equal, 5, b!"="⟩) sR = .ok c s' ∧
+    absArr s'.heap 0 = [.bool true, .bool false, .nil none, .nil none] := by
+  have hp : F64.parse b!"3" = some three := by decide +kernel
+  have h3 : three.toGoInt = 3 := by decide +kernel
+  have ext : Ext sR.heap (sR.heap.alloc (.num three)).2 := Ext.alloc _ _
+  have h2 : evalExpr Program.empty 1 (.lit ⟨.num, 2, b!"3"⟩) sR
+      = .ok 8 { sR with heap := (sR.heap.alloc (.num three)).2 } := by
+    unfold evalExpr
+    simp only [hp]
+    rfl
+  have h := index_assign_refines_reachable Program.empty 1 (.ident ⟨.ident, 0, b!"a"⟩)
+    (.lit ⟨.num, 2, b!"3"⟩) (.lit ⟨.null, 7, b!"null"⟩) ⟨.lsquare, 1, b!"["⟩ ⟨.equal, 5, b!"="⟩ sR sR
+    { sR with heap := (sR.heap.alloc (.num three)).2 } 5 8 0 three (.nil none) sR_reachable
+    rfl rfl (by with_unfolding_all rfl) h2 (by decide +kernel)
+    ((Heap.get_push_old sR.heap _ 5 (by decide +kernel)).trans (by with_unfolding_all rfl))
+    (Heap.get_push_new sR.heap _)
+    (fun m sm _ => ⟨sm.heap.cells.size, (sm.heap.alloc (.nil none)).2, by with_unfolding_all rfl,
+      Ext.alloc sm.heap _, by
+        show @LT.lt Nat _ sm.heap.cells.size (sm.heap.cells.push (.nil none)).size
+        simp, by
+        rw [show (sm.heap.alloc (.nil none)).2.get sm.heap.cells.size = .nil none from
+          Heap.get_push_new sm.heap _]
+        rfl⟩)
+  rw [h3, ext.absArr (reachable_inv sR_reachable).wf 0] at h
+  have hs : setIdx (absArr sR.heap 0) 3 (.nil none) = .ok [.bool true, .bool false, .nil none, .nil none] := by
+    with_unfolding_all rfl
+  rw [hs] at h
+  obtain ⟨c, s', e, g, st, -⟩ := h
+  exact ⟨c, s', e, st.this⟩
+
+/-- `ops_refine_list_w_reachable` on `sR` with the six-operation sequence of section 7 -/
+example : ∃ s', runOpsW 0 exOps sR =
+      .ok ([some (.num F64.one), some (.num F64.one), some (.num F64.zero), some (.bool true),
+            some (.num (F64.ofNat 2)), none].map (resOf 0)) s' ∧
+    absArr s'.heap 0 = [.bool false, .num F64.zero, .num F64.one] := by
+  have h := ops_refine_list_w_reachable 0 exOps sR sR_reachable (by decide +kernel) exOps_valid
+  have hr : runW (absArr sR.heap 0) exOps
+      = .ok ([some (.num F64.one), some (.num F64.one), some (.num F64.zero), some (.bool true),
+            some (.num (F64.ofNat 2)), none], [.bool false, .num F64.zero, .num F64.one]) := by
+    with_unfolding_all rfl
+  rw [hr] at h
+  obtain ⟨s', e, st⟩ := h
+  exact ⟨s', e, st.this⟩
+
+/-- `ops_refine_lists_w_reachable` on `sR`: its hypotheses hold for `a.length` on array 0 -/
+example := ops_refine_lists_w_reachable [(0, .length)] sR sR_reachable
+  (fun aop h => by simp at h; subst h; decide +kernel) (fun aop h => by simp at h; subst h; trivial)
+
+/-- **FINDING: `ElemsPlain` does not hold in the final state of an evaluation stopped by a runtime
+    error.**  `a[i] = v` with `a = [true, false]`, `i = 5` and `v` the builtin `printf`: the member
+    step yields a stand-in for the missing element, `createSpeculative` / `setMember` pad the array
+    to six elements and copy the stand-in VALUE into the last one, and only then `copyValue` refuses
+    the function ("cannot copy a nativefunction"): the runtime error leaves an array whose element 5
+    is a stand-in.  The Go code does the same (`SetMember`: `item.Value = cell.Value`, then
+    `copyValue` fails in `evalAssignment`); the program ends there, so nothing ever reads the
+    element.  This is why section 10 claims the full invariant for normal ends and control signals
+    only, and `Heap.WF ∧ Unshared` after errors. -/
+theorem elemsPlain_fails_after_runtime_error :
+    ∃ p m s', evalExpr Program.empty 5 exWAssign
+        { exW with heap := ⟨#[.arr 0, .num (F64.ofNat 5), .native .printf none none, .bool true, .bool false],
+                             #[#[3, 4]], #[]⟩ } = .err (.runtime p m) s' ∧
+      m = "cannot copy a nativefunction" ∧ (absArr s'.heap 0).length = 6 ∧ ¬ ElemsPlain s'.heap := by
+  have ob : (match evalExpr Program.empty 5 exWAssign
+        { exW with heap := ⟨#[.arr 0, .num (F64.ofNat 5), .native .printf none none, .bool true, .bool false],
+                             #[#[3, 4]], #[]⟩ } with
+      | .err (.runtime _ m) s' => m == "cannot copy a nativefunction" && (s'.heap.arr 0).size == 6 &&
+          (s'.heap.get ((s'.heap.arr 0).getD 5 0)).speculative
+      | _ => false) = true := by decide +kernel
+  cases hr : evalExpr Program.empty 5 exWAssign
+        { exW with heap := ⟨#[.arr 0, .num (F64.ofNat 5), .native .printf none none, .bool true, .bool false],
+                             #[#[3, 4]], #[]⟩ } with
+  | ok c s' => rw [hr] at ob; cases ob
+  | oof => rw [hr] at ob; cases ob
+  | err e s' =>
+    rw [hr] at ob
+    cases e with
+    | sig g => cases ob
+    | panic m => cases ob
+    | unmodelled w => cases ob
+    | runtime p m =>
+      simp only [Bool.and_eq_true, beq_iff_eq] at ob
+      obtain ⟨⟨hm, hsz⟩, hsp⟩ := ob
+      refine ⟨p, m, s', rfl, hm, by rw [absArr_length]; exact hsz, fun pl => ?_⟩
+      have := (pl 0 _ (mem_arr_getD s'.heap 0 5 (by rw [hsz]; decide))).1
+      rw [hsp] at this; cases this
+
+/-- **what does survive a runtime error: `Heap.WF` and `Unshared`.**  An expression evaluated from a
+    state satisfying the invariant that stops with a runtime error leaves a well-formed heap in which
+    no cell is an element of two arrays or twice of one (`HeapInv.Weak`; the same holds after a
+    panic or an unmodelled construct, see `HeapInv.Post`).  Only `ElemsPlain` can be lost
+    (`elemsPlain_fails_after_runtime_error`): every store into an array is of fresh cells, and
+    writing a value into a cell changes neither the arrays nor the number of cells. -/
+theorem evalExpr_error_keeps_unshared (prog : Program) (n : Nat) (e : Expr) (s s' : St) (p : Nat)
+    (m : String) (i : HeapInv.Inv s.heap) (h : evalExpr prog n e s = .err (.runtime p m) s') :
+    s'.heap.WF ∧ Unshared s'.heap := by
+  have := (allGood prog n).expr e s i trivial
+  rw [h] at this; exact this
+
+/-- … and a statement that stops with a runtime error -/
+theorem evalStmt_error_keeps_unshared (prog : Program) (n : Nat) (st : Stmt) (s s' : St) (p : Nat)
+    (m : String) (i : HeapInv.Inv s.heap) (h : evalStmt prog n st s = .err (.runtime p m) s') :
+    s'.heap.WF ∧ Unshared s'.heap := by
+  have := (allGood prog n).stmt st s i trivial
+  rw [h] at this; exact this
+
+/-- **a whole run, whatever its outcome** (success, runtime error, panic, unmodelled construct,
+    surfaced signal, JSON error, syntax error in a selector, out of fuel): the state it reports has a
+    well-formed heap in which no cell is an element twice.  (For the outcomes other than runtime
+    error / panic / unmodelled the full invariant holds, `HeapInv.evalProgram_invRun`.) -/
+theorem run_end_unshared (tbl : RuleTable) (src : Bytes) (sels : List Bytes) (files : List InputFile)
+    (st : St) (hst : (evalProgram tbl src sels files).st = some st) :
+    st.heap.WF ∧ Unshared st.heap :=
+  evalProgram_weak tbl src sels files st hst
+
+/-- the state of `elemsPlain_fails_after_runtime_error` -/
+def exF : St :=
+  { exW with heap := ⟨#[.arr 0, .num (F64.ofNat 5), .native .printf none none, .bool true, .bool false],
+                       #[#[3, 4]], #[]⟩ }
+
+/-- `evalExpr_error_keeps_unshared` on the evaluation of `elemsPlain_fails_after_runtime_error`
+    (`a[5] = printf` with `a = [true, false]`): the start state satisfies the invariant (the cell
+    holding the function is no array element), the evaluation stops with a runtime error, and the
+    end state — in which `ElemsPlain` fails — is well-formed and unshared -/
+example : ∃ p m s', evalExpr Program.empty 5 exWAssign exF = .err (.runtime p m) s' ∧
+    s'.heap.WF ∧ Unshared s'.heap ∧ ¬ ElemsPlain s'.heap := by
+  have hi : HeapInv.Inv exF.heap := by
+    have e : exF.heap = (exW.heap.set 1 (.num (F64.ofNat 5))).set 2 (.native .printf none none) := by
+      with_unfolding_all rfl
+    rw [e]
+    refine inv_set_notElem (inv_set exW_inv 1 (plain_num _)) 2 _ ?_ ?_
+    · intro b hb
+      rcases b with _ | b
+      · revert hb; decide
+      · have hb' : 2 ∈ (exW.heap.arr (b + 1)).toList := hb
+        rw [exW_arr] at hb'; simp at hb'
+    · intro o k hk
+      have hk' : (k, 2) ∈ exW.heap.obj o := hk
+      simp [exW, Heap.obj] at hk'
+  obtain ⟨p, m, s', hr, -, -, hne⟩ := elemsPlain_fails_after_runtime_error
+  exact ⟨p, m, s', hr, (evalExpr_error_keeps_unshared _ _ _ _ _ _ _ hi hr).1,
+    (evalExpr_error_keeps_unshared _ _ _ _ _ _ _ hi hr).2, hne⟩
+
+/-- a whole run that ends with a runtime error: `a[5] = printf` in a `BEGIN` rule -/
+def exRunErr : RunResult := evalProgram expectedRuleTable b!"BEGIN { a[2] = 1; a[5] = printf }" [] []
+
+/-- `run_end_unshared` on a whole run that ends with the runtime error of the finding: the state the
+    run reports is well-formed and unshared, and `ElemsPlain` fails in it (element 5 of the padded
+    array is a stand-in) -/
+example : ∃ st src pos, exRunErr.st = some st ∧
+    exRunErr.outcome = .runtimeErr src pos "cannot copy a nativefunction" ∧
+    st.heap.WF ∧ Unshared st.heap ∧ ¬ ElemsPlain st.heap := by
+  have ob : (match exRunErr with
+      | ⟨.runtimeErr _ _ m, _, some st⟩ => m == "cannot copy a nativefunction" &&
+          (st.heap.arr 0).size == 6 && (st.heap.get ((st.heap.arr 0).getD 5 0)).speculative
+      | _ => false) = true := by decide +kernel
+  have hw := run_end_unshared expectedRuleTable b!"BEGIN { a[2] = 1; a[5] = printf }" [] []
+  change ∀ st, exRunErr.st = some st → _ at hw
+  generalize exRunErr = r at ob hw ⊢
+  obtain ⟨o, out, st?⟩ := r
+  cases o <;> cases st? <;> try (cases ob; done)
+  rename_i src pos m st
+  simp only [Bool.and_eq_true, beq_iff_eq] at ob
+  obtain ⟨⟨hm, hsz⟩, hsp⟩ := ob
+  subst hm
+  refine ⟨st, src, pos, rfl, rfl, (hw st rfl).1, (hw st rfl).2, fun pl => ?_⟩
+  have := (pl 0 _ (mem_arr_getD st.heap 0 5 (by rw [hsz]; decide))).1
+  rw [hsp] at this; cases this
+
+
+/-- **a whole run that does not end with a runtime error, a panic or an unmodelled construct**
+    (success, surfaced signal, JSON error, syntax error in a selector, out of fuel with a reported
+    state): the state it reports satisfies the full invariant, in particular `ElemsPlain`
+    (`run_end_unshared_plain` is the case `outcome = .ok`) -/
+theorem run_end_unshared_plain_unless_error (tbl : RuleTable) (src : Bytes) (sels : List Bytes)
+    (files : List InputFile) (st : St) (hst : (evalProgram tbl src sels files).st = some st)
+    (h1 : ∀ s p m, (evalProgram tbl src sels files).outcome ≠ .runtimeErr s p m)
+    (h2 : ∀ m, (evalProgram tbl src sels files).outcome ≠ .panic m)
+    (h3 : ∀ w, (evalProgram tbl src sels files).outcome ≠ .unmodelled w) :
+    st.heap.WF ∧ Unshared st.heap ∧ ElemsPlain st.heap := by
+  have h := evalProgram_invRun tbl src sels files st hst
+  revert h h1 h2 h3
+  generalize (evalProgram tbl src sels files).outcome = o
+  intro h1 h2 h3 h
+  cases o with
+  | runtimeErr s p m => exact absurd rfl (h1 s p m)
+  | panic m => exact absurd rfl (h2 m)
+  | unmodelled w => exact absurd rfl (h3 w)
+  | _ => exact inv_gives h
+
+/-- its hypotheses hold for a run stopped by malformed JSON input after one good value (outcome
+    `jsonErr`): the reported state satisfies the invariant -/
+example : ∃ st, (evalProgram expectedRuleTable b!"{ $.x[3] = $.y }" []
+      [⟨b!"in", b!"{\"y\": [1, 2]} {", .eof⟩]).st = some st ∧
+    st.heap.WF ∧ Unshared st.heap ∧ ElemsPlain st.heap := by
+  have ob : (match (evalProgram expectedRuleTable b!"{ $.x[3] = $.y }" []
+      [⟨b!"in", b!"{\"y\": [1, 2]} {", .eof⟩]) with
+      | ⟨.jsonErr _, _, some _⟩ => true
+      | _ => false) = true := by decide +kernel
+  have hw := run_end_unshared_plain_unless_error expectedRuleTable b!"{ $.x[3] = $.y }" []
+      [⟨b!"in", b!"{\"y\": [1, 2]} {", .eof⟩]
+  revert ob hw
+  generalize (evalProgram expectedRuleTable b!"{ $.x[3] = $.y }" []
+      [⟨b!"in", b!"{\"y\": [1, 2]} {", .eof⟩]) = r
+  intro ob hw
+  obtain ⟨o, out, st?⟩ := r
+  cases o <;> cases st? <;> try (cases ob; done)
+  rename_i f st
+  exact ⟨st, rfl, hw st rfl (fun _ _ _ h => by cases h) (fun _ h => by cases h) (fun _ h => by cases h)⟩
+
+
+/-! #### intermediate states: the start of every nested statement
+
+  `Spec.Leads prog l n (.stmt outer) s m inner s0` (`Lemmas/LoopsNest.lean`, C07) says that running
+  the statement `outer` from `s` arrives at the sub-statement `inner`, to be run at fuel `m` from
+  state `s0` — through the statements of blocks that completed before it, taken `if`/`else`
+  branches, rounds of `while` / `for` / `for … in` loops, and bodies of `match` statements. -/
+
+/-- **every nested statement is started in a state satisfying the invariant**: if a statement (a
+    rule body, a function body) is started in a state satisfying `Inv` and leads to a sub-statement,
+    that sub-statement is started in a state satisfying `Inv` -/
+theorem nested_stmt_starts_inv (prog : Program) {l : Bool} {n m : Nat} {outer inner : Stmt} {s s0 : St}
+    (h : Leads prog l n (.stmt outer) s m inner s0) (i : HeapInv.Inv s.heap) : HeapInv.Inv s0.heap :=
+  leads_inv prog h i trivial
+
+/-- … so there no cell is an element twice and every array element is plain -/
+theorem nested_stmt_starts_unshared_plain (prog : Program) {l : Bool} {n m : Nat} {outer inner : Stmt}
+    {s s0 : St} (h : Leads prog l n (.stmt outer) s m inner s0) (i : HeapInv.Inv s.heap) :
+    s0.heap.WF ∧ Unshared s0.heap ∧ ElemsPlain s0.heap := inv_gives (nested_stmt_starts_inv prog h i)
+
+/-- **an index assignment statement `ea[ei] = v;` anywhere inside a statement started in a state
+    satisfying the invariant refines the ideal list** (`index_assign_var_refines` at the nested
+    statement, with no hypothesis about sharing or plainness; `s0` is the state the assignment
+    statement is started in, `s2` the state after `ea` and `ei`) -/
+theorem nested_index_assign_var_refines (prog : Program) {l : Bool} {k : Nat} {outer : Stmt} {s s0 : St}
+    (n : Nat) (ea ei : Expr) (lsq eq tv : Token)
+    (h : Leads prog l k (.stmt outer) s (n + 5) (.expr (.binary (.binary ea ei lsq) (.ident tv) eq)) s0)
+    (i : HeapInv.Inv s.heap) (s1 s2 : St) (ac ic rc : CellId) (a : ArrId) (x : F64) (w : Val)
+    (hl : lsq.tag = .lsquare) (he : eq.tag = .equal)
+    (h1 : evalExpr prog n ea s0 = .ok ac s1) (h2 : evalExpr prog n ei s1 = .ok ic s2)
+    (h3 : ∀ h', getIdentifier prog tv { s2 with heap := h' } = .ok rc { s2 with heap := h' })
+    (ha : a < s2.heap.arrs.size)
+    (hac : s2.heap.get ac = .arr a) (hic : s2.heap.get ic = .num x) (hrc : rc < s2.heap.cells.size)
+    (hw : copyVal (s2.heap.get rc) = .ok w) :
+    match setIdx (absArr s2.heap a) x.toGoInt w with
+    | .ok l' => ∃ c s', evalExpr prog (n + 4) (.binary (.binary ea ei lsq) (.ident tv) eq) s0 = .ok c s' ∧
+        s'.heap.get c = w ∧ ArrStep a s2 s' l' ∧ Unshared s'.heap ∧ ElemsPlain s'.heap
+    | .error m => ∃ s', evalExpr prog (n + 4) (.binary (.binary ea ei lsq) (.ident tv) eq) s0
+          = .err (.runtime ea.token.pos m) s' ∧
+        ∀ b, absArr s'.heap b = absArr s2.heap b :=
+  have i0 := nested_stmt_starts_inv prog h i
+  have i1 := (evalExpr_keeps_inv prog n ea s0 s1 ac i0 h1).1
+  have i2 := (evalExpr_keeps_inv prog n ei s1 s2 ic i1 h2).1
+  index_assign_var_refines prog n ea ei lsq eq tv s0 s1 s2 ac ic rc a x w hl he h1 h2 h3 i2.wf i2.un i2.ep
+    ha hac hic hrc hw
+
+/-- the state after `a[i] = v` on `exW` -/
+def exW1 : St := stOf (evalStmt Program.empty 7 (.expr exWAssign) exW)
+
+/-- `{ a[i] = v; a[i] = v }` started in `exW` leads to its second statement, started in `exW1` -/
+theorem exW_leads : Leads Program.empty false 9
+    (.stmt (.block ⟨.lcurly, 0, b!"{"⟩ [.expr exWAssign, .expr exWAssign])) exW 6 (.expr exWAssign) exW1 :=
+  .block (.blockTail (by with_unfolding_all rfl) (.blockHead .here))
+
+example : exW1.heap.WF ∧ Unshared exW1.heap ∧ ElemsPlain exW1.heap :=
+  nested_stmt_starts_unshared_plain Program.empty exW_leads exW_inv
+
+/-- the hypotheses of `nested_index_assign_var_refines` hold for that second statement: it
+    succeeds and `a` denotes `[true, true]` -/
+example : ∃ c s', evalExpr Program.empty 5 exWAssign exW1 = .ok c s' ∧
+    absArr s'.heap 0 = [.bool true, .bool true] := by
+  have h := nested_index_assign_var_refines Program.empty 1 (.ident ⟨.ident, 0, b!"a"⟩)
+    (.ident ⟨.ident, 2, b!"i"⟩) ⟨.lsquare, 1, b!"["⟩ ⟨.equal, 5, b!"="⟩ ⟨.ident, 7, b!"v"⟩
+    exW_leads exW_inv exW1 exW1 0 1 2 0 F64.one (.bool true)
+    rfl rfl (by with_unfolding_all rfl) (by with_unfolding_all rfl)
+    (fun _ => by with_unfolding_all rfl) (by decide +kernel) (by with_unfolding_all rfl)
+    (by with_unfolding_all rfl) (by decide +kernel) (by with_unfolding_all rfl)
+  have hs : setIdx (absArr exW1.heap 0) F64.one.toGoInt (.bool true) = .ok [.bool true, .bool true] := by
+    with_unfolding_all rfl
+  rw [hs] at h
+  obtain ⟨c, s', e, g, st, -⟩ := h
+  exact ⟨c, s', e, st.this⟩
 
 end Jqawk.C15
